@@ -42,6 +42,9 @@ type gSchema struct {
 	hasUnion       bool
 	condBits       uint32 // set of bit numbers used by conditional fields
 	interleaved    bool   // a union constructor is separated from its siblings by another declaration
+	rel            uint64 // != 0: drawn with related type names (relnames_test.go)
+	relPairs       int    // pairs of declared types of which one registered name is a proper prefix of the other
+	relFuncs       int    // functions whose result type's name is a proper prefix of another type's name
 }
 
 const errorLine = "liteServer.error#bba9e148 code:int message:string = liteServer.Error;"
@@ -56,6 +59,7 @@ type schemaGen struct {
 	usedIDs map[uint32]bool
 	singles []*gType
 	unions  []*gType
+	rel     *relNames // nil: the plain names ns.tK / ns.UK
 }
 
 func (g *schemaGen) id() uint32 {
@@ -182,14 +186,28 @@ func upperLast(name string) string {
 
 // drawSchema draws a schema of 1..40 declarations (constructors and functions) plus the fixed
 // liteServer.error line. Everything is a pure function of the choices of r.
-func drawSchema(r tlref.Rand, seed uint64) *gSchema {
-	sc := &gSchema{seed: seed, ns: nsWords[r.Intn("ns", len(nsWords))]}
+func drawSchema(r tlref.Rand, seed uint64) *gSchema { return drawSchemaRel(r, seed, 0) }
+
+// drawSchemaRel: rel == 0 draws exactly the schema drawSchema has always drawn for the seed. rel != 0 draws
+// the same structure from the same choices, with related type names (relnames_test.go), at least three
+// types and two functions, and functions that prefer result types whose name is a prefix of another name.
+func drawSchemaRel(r tlref.Rand, seed uint64, rel uint64) *gSchema {
+	sc := &gSchema{seed: seed, ns: nsWords[r.Intn("ns", len(nsWords))], rel: rel}
 	g := &schemaGen{r: r, sc: sc, usedIDs: map[uint32]bool{}}
 	total := 1 + r.Intn("ndecl", 40)
 	if r.Intn("small", 3) == 0 {
 		total = 1 + r.Intn("ndecl.small", 6)
 	}
 	nfuncs := r.Intn("nfuncs", 7)
+	if rel != 0 {
+		g.rel = newRelNames(seed, rel)
+		if total < 6 {
+			total = 6
+		}
+		if nfuncs < 2 {
+			nfuncs = 2
+		}
+	}
 	if nfuncs > total-1 {
 		nfuncs = total - 1
 	}
@@ -201,12 +219,18 @@ func drawSchema(r tlref.Rand, seed uint64) *gSchema {
 				nc = remaining
 			}
 			t := &gType{name: fmt.Sprintf("%s.U%d", sc.ns, k)}
+			ctorStem := fmt.Sprintf("%s.u%d", sc.ns, k)
+			if g.rel != nil {
+				base := g.rel.next(k, true)
+				ctorStem = sc.ns + "." + base
+				t.name = upperLast(ctorStem)
+			}
 			for j := 0; j < nc; j++ {
 				fs, d := g.fields(0, 5, false)
 				if d+1 > t.depth {
 					t.depth = d + 1
 				}
-				t.ctors = append(t.ctors, &gDecl{name: fmt.Sprintf("%s.u%d_%c", sc.ns, k, 'a'+j), id: g.id(), fields: fs, result: t.name})
+				t.ctors = append(t.ctors, &gDecl{name: fmt.Sprintf("%s_%c", ctorStem, 'a'+j), id: g.id(), fields: fs, result: t.name})
 			}
 			sc.types = append(sc.types, t)
 			g.unions = append(g.unions, t)
@@ -218,6 +242,9 @@ func drawSchema(r tlref.Rand, seed uint64) *gSchema {
 		// construction: its MarshalTL declares `err` and `b` and never uses them (does not compile).
 		fs, d := g.fields(1, 8, true)
 		cn := fmt.Sprintf("%s.t%d", sc.ns, k)
+		if g.rel != nil {
+			cn = sc.ns + "." + g.rel.next(k, false)
+		}
 		t := &gType{name: upperLast(cn), depth: d + 1}
 		t.ctors = []*gDecl{{name: cn, id: g.id(), fields: fs, result: t.name}}
 		sc.types = append(sc.types, t)
@@ -227,9 +254,13 @@ func drawSchema(r tlref.Rand, seed uint64) *gSchema {
 	for k := 0; k < nfuncs; k++ {
 		fs, _ := g.fields(0, 6, true)
 		res := sc.types[r.Intn("result", len(sc.types))]
+		if g.rel != nil {
+			res = g.rel.result(sc.types, res)
+		}
 		sc.funcs = append(sc.funcs, &gDecl{name: fmt.Sprintf("%s.get%d", sc.ns, k), id: g.id(), fields: fs, result: res.name})
 	}
 	sc.nDecl = total
+	sc.relPairs, sc.relFuncs = relatedCounts(sc)
 	var sb strings.Builder
 	line := func(d *gDecl) {
 		fmt.Fprintf(&sb, "%s#%08x", d.name, d.id)
